@@ -172,6 +172,98 @@ func (g *cgraph) definePhi(ph *ssa.Phi, key string, depth int) {
 	if down && len(inits) == 1 {
 		g.le(key, orZero(inits[0].t), inits[0].k)
 	}
+	if up {
+		g.guardedUpperBound(ph, key, func() bool {
+			return true
+		})
+	}
+}
+
+// guardedUpperBound: a counter that goes up by exactly one per trip, and whose every back edge comes
+// from a block dominated by the true edge of `counter < T` (T invariant in the loop: the length of a
+// parameter, or a register computed before the loop), satisfies counter ≤ T at the header and
+// everywhere after, provided its initial values do (init ≤ T is asked of the graph).
+func (g *cgraph) guardedUpperBound(ph *ssa.Phi, key string, _ func() bool) {
+	a := g.a
+	hdr := ph.Block()
+	var boundT string
+	var boundK int64
+	first := true
+	var inits []ssa.Value
+	for i, e := range ph.Edges {
+		pred := hdr.Preds[i]
+		base, k := linear(e)
+		if base != ssa.Value(ph) {
+			inits = append(inits, e)
+			continue
+		}
+		if k != 1 || !hdr.Dominates(pred) {
+			return
+		}
+		// the guard on this back edge
+		found := false
+		for x := pred; x != nil && x != hdr.Idom(); x = x.Idom() {
+			d := x.Idom()
+			if d == nil || len(x.Preds) != 1 || x.Preds[0] != d || !hdr.Dominates(d) {
+				continue
+			}
+			iff, ok := d.Instrs[len(d.Instrs)-1].(*ssa.If)
+			if !ok || d.Succs[0] != x {
+				continue
+			}
+			bo, ok := iff.Cond.(*ssa.BinOp)
+			if !ok || bo.Op != token.LSS || bo.X != ssa.Value(ph) {
+				continue
+			}
+			t, tk, ok := a.intTerm(bo.Y)
+			if !ok || t == "" {
+				continue
+			}
+			// T invariant: len of a parameter, or a register defined outside the loop
+			inv := false
+			if c, ok := bo.Y.(*ssa.Call); ok {
+				if bi, ok := c.Call.Value.(*ssa.Builtin); ok && bi.Name() == "len" {
+					if _, isPar := c.Call.Args[0].(*ssa.Parameter); isPar {
+						inv = true
+					}
+				}
+			}
+			if yi, ok := bo.Y.(ssa.Instruction); ok && !inv {
+				if yi.Block() != hdr && yi.Block().Dominates(hdr) {
+					inv = true
+				}
+			}
+			if _, isPar := bo.Y.(*ssa.Parameter); isPar {
+				inv = true
+			}
+			if !inv {
+				continue
+			}
+			if first {
+				boundT, boundK, first = t, tk, false
+				found = true
+			} else if boundT == t && boundK == tk {
+				found = true
+			}
+			if found {
+				g.define(bo.Y, 3)
+				break
+			}
+		}
+		if !found {
+			return
+		}
+	}
+	if first || len(inits) == 0 {
+		return
+	}
+	for _, in := range inits {
+		t, k, ok := a.intTerm(in)
+		if !ok || !g.proveLE(t, k, boundT, boundK) {
+			return
+		}
+	}
+	g.le(key, boundT, boundK)
 }
 
 // defineLoad: loads from constant package-level integer arrays are bounded by the literal.
